@@ -52,6 +52,9 @@ func checkC13(c *Check) {
 	c.Rule("C13.R2", "parameter table: the url.Values has exactly response_type=code, client_id, redirect_uri, scope (configured scopes joined by one space), state, nonce, code_challenge, code_challenge_method=S256 from their configured/issued sources; any further entry comes from the endpoint's own query and never overrides a table key.", 9)
 	c.Rule("C13.R3", "return URL: the Location of the callback's success answer is the RequestedURL of the login state loaded for this session, and the RequestedURL stored at the redirect is scheme://host path [?query] of the request being redirected, with no re-encoding call on either side.", 2)
 	c.Rule("C13.R4", "no-cache on every redirect: every denied response that receives a location header was created by the deny constructor that appends the standard headers, and those contain cache-control: no-cache and pragma: no-cache.", 4)
+	// the URL that is stored for the way back is the one the client asked for: nothing on the way to the handler rewrites
+	// the request (a trigger-rule evaluation that "normalises" the path in place changes where the user lands after login)
+	requestIsReadOnly(c, "C13.R3")
 	if !requireModel(c, "C13.R1", m, "redirect.", "hw.location", "newdeny", "cb.location", "cb.getstate") {
 		return
 	}
